@@ -15,6 +15,7 @@ from .values import (TAny, TBool, TFunc, TInt, TMap, TNone, TObj, TOpt, TReal, T
                      VReal, VRef, VSeq, VStr, VStream, VStruct, VStructFmt, VTuple, fresh_name, parse_type)
 
 SEQ_MUTATORS = {"append", "pop", "extend", "remove", "sort", "fromlist", "insert", "clear"}
+FILE_METHODS = {"seek", "write", "flush", "close", "fileno", "read"}
 
 rsum = z3.Function("rsum", z3.ArraySort(z3.IntSort(), z3.IntSort()), z3.IntSort(), z3.IntSort(), z3.IntSort())
 HFarr = z3.Function("HFarr", z3.IntSort(), z3.IntSort(), z3.IntSort(), z3.ArraySort(z3.IntSort(), z3.IntSort()))
@@ -58,6 +59,8 @@ class Executor(Exec):
                 return self.quantifier(f.id, node.args[0], st)
             if f.id == "implies" and self.spec:
                 a = self.truth(st, self.eval(node.args[0], st))
+                if z3.is_false(z3.simplify(a)):
+                    return VBool(True)
                 st.pc.append(a)
                 try:
                     b = self.truth(st, self.eval(node.args[1], st))
@@ -85,6 +88,19 @@ class Executor(Exec):
                 if isinstance(cur, VMap):
                     args, kwargs = self.eval_args(node, st)
                     return self.map_mutate(st, loc, cur, f.attr, args)
+        if isinstance(f, ast.Attribute) and f.attr in FILE_METHODS:
+            loc = self.try_loc(f.value, st)
+            if loc is not None:
+                cur = self.read(st, loc)
+                from .values import VFilePtr
+                if isinstance(cur, VFilePtr):
+                    from . import streams
+                    args, kwargs = self.eval_args(node, st)
+                    return streams.fileptr_method(self, st, loc, cur, f.attr, args)
+                if isinstance(cur, VSeq) and cur.kind == "mmap" and f.attr in ("flush", "close"):
+                    self.lib_used.add("mmap.flush()/close(): no effect on the mapped file's bytes (MAP_SHARED stores "
+                                      "are already file contents at the level of this model)")
+                    return VNone()
         fv = self.eval(f, st)
         args, kwargs = self.eval_args(node, st)
         if isinstance(fv, VBoundMethod):
@@ -102,6 +118,8 @@ class Executor(Exec):
             return self.call_hashfunc(st, fv, args, kwargs)
         if isinstance(fv, VOpaque) and fv.desc.startswith("digest:"):
             return fv
+        if isinstance(fv, VOpaque) and fv.desc == "foreign":
+            return VOpaque("foreign")
         raise Unsupported(f"call of {fv}")
 
     def eval_args(self, node, st):
@@ -150,8 +168,13 @@ class Executor(Exec):
         st.env = dict(st.env)
         mark = len(st.pc)
         try:
-            n = self.bind_iteration(st, g.target, it, j)
-            rng = z3.And(0 <= j, j < n)
+            if isinstance(it, VRange):
+                # quantify over the value itself (clean triggers: a[k], not a[lo + k])
+                self.bind_target(st, g.target, VInt(j))
+                rng = z3.And(it.lo <= j, j < it.hi)
+            else:
+                n = self.bind_iteration(st, g.target, it, j)
+                rng = z3.And(0 <= j, j < n)
             conds = [rng]
             st.pc.append(rng)
             self.binder_marks.append(([j], mark))
@@ -221,19 +244,14 @@ class Executor(Exec):
                     fi = cand[name]
                     break
         c = None
-        if fi is not None:
-            # contract attached to the defining class or any class between receiver and it
-            for k in mro:
-                c = CONTRACTS.get(f"{k}.{fi.name}")
-                if c is not None:
-                    break
-                if k == fi.cls:
-                    break
-        else:
-            for k in mro:
-                c = CONTRACTS.get(f"{k}.{name}")
-                if c is not None:
-                    break
+        for k in mro:
+            cand = CONTRACTS.get(f"{k}.{fi.name if fi is not None else name}")
+            if cand is None:
+                continue
+            # a base-class contract covers an override only if the override is verified against it
+            if fi is None or fi.cls == k or cls in cand.contexts or fi.cls in cand.contexts:
+                c = cand
+                break
         if c is not None:
             return self.call_contract(st, c, recv, args, kwargs, fi)
         if fi is not None:
@@ -336,7 +354,8 @@ class Executor(Exec):
                 ex = st.fork()
                 ex.pc.append(w)
                 self.exits.append(Exit("raise", ex, exc=exc, line=self.cur_line))
-            nots.append(z3.Not(w))
+            if spec.get("must", True):
+                nots.append(z3.Not(w))
         st.pc += nots
         # 3. frame: havoc what the callee may modify
         before = st.fork()
@@ -565,13 +584,34 @@ class Executor(Exec):
 
     def s_If(self, s, st):
         c = self.truth(st, self.eval(s.test, st))
+        cs = z3.simplify(c)
+        if z3.is_true(cs):
+            return self.exec_block(s.body, st)
+        if z3.is_false(cs):
+            return self.exec_block(s.orelse, st) if s.orelse else [(st, "normal")]
         a = st.fork()
         a.pc.append(c)
         b = st
         b.pc.append(z3.Not(c))
-        out = self.exec_block(s.body, a)
-        out += self.exec_block(s.orelse, b) if s.orelse else [(b, "normal")]
+        out = []
+        # infeasible branches are pruned (sound: `unsat` means no execution reaches the branch)
+        if self.feasible(a):
+            out += self.exec_block(s.body, a)
+        if self.feasible(b):
+            out += self.exec_block(s.orelse, b) if s.orelse else [(b, "normal")]
         return out
+
+    def feasible(self, st):
+        if self.dry:
+            return True
+        s = z3.Solver()
+        s.set("timeout", 300)
+        s.set("auto_config", False)
+        s.set("smt.mbqi", False)
+        for p in st.pc:
+            if not z3.is_quantifier(p):
+                s.add(p)
+        return s.check() != z3.unsat
 
     def s_AnnAssign(self, s, st):
         if s.value is None:
